@@ -746,6 +746,10 @@ def _lin_vars(e, depth=0, fn=None, keep=()):
         return {e.get("d"): 1}
     if k in ("CStyleCastExpr", "CXXStaticCastExpr", "CXXFunctionalCastExpr", "CXXConstructExpr") and len(e.get("c", [])) == 1:
         return _lin_vars(e["c"][0], depth + 1, fn, keep)
+    if k == "CXXMemberCallExpr" and (strip(e["c"][0]) or {}).get("n") == "size" and len(e["c"]) == 1:
+        obj = strip_all((strip(e["c"][0]) or {}).get("c", [None])[0])
+        if obj is not None and obj.get("d") is not None:
+            return {("size", obj["d"]): 1}       # the number of elements of a container, as a symbol
     if k == "BinaryOperator" and e.get("op") in ("+", "-", "*"):
         a, b = _lin_vars(e["c"][0], depth + 1, fn, keep), _lin_vars(e["c"][1], depth + 1, fn, keep)
         if a is None or b is None:
@@ -805,6 +809,21 @@ def rule_opus_catalogue_slot(prog, fixture=False, rule_id="R-C01-7"):
                 r.undecided.append("%s: catalogue location `%s` is not a linear form" % (fn.loc(n), show(args[0])))
                 continue
             lf = {k_: v_ for k_, v_ in lf.items() if v_ != 0}
+            # the size of the list being filled counts the volumes found so far; it equals the index only if
+            # no iteration can skip the append
+            obj_ = strip_all((strip(n["c"][0]) or {}).get("c", [None])[0])
+            szk = ("size", (obj_ or {}).get("d"))
+            if szk in lf:
+                body_ = loop["c"][loop["parts"]["body"]]
+                skips = any(x.get("k") == "ContinueStmt" for x in walk(body_)) or \
+                    any(a.get("k") in ("IfStmt", "SwitchStmt", "ConditionalOperator") for a in fn.ancestors(n)
+                        if any(y is a for y in walk(body_)))
+                if skips:
+                    r.add(key, fn.loc(n), False, "the catalogue location `%s` is computed from the number of volumes found "
+                          "so far, not from the volume letter: after an unused letter every later volume's catalogue is "
+                          "looked for in the wrong pair of sectors" % show(args[0]))
+                    continue
+                lf[i_d] = lf.get(i_d, 0) + lf.pop(szk)
             others = [k_ for k_ in lf if k_ not in ("", i_d)]
             carried = [k_ for k_ in others if k_ in written_in_loop]
             if carried and len(carried) == 1 and lf == {carried[0]: 1}:
